@@ -54,6 +54,8 @@ var stringPool = []string{
 	"0", "1", "-1", "42", "-42", "+5", "-0", "007", " 5", "5 ", "", "abc", "1.5", "-1.5", "1e3", "1E3", "-1.5e-3", "0x10", "1_000",
 	"9223372036854775807", "9223372036854775808", "-9223372036854775808", "-9223372036854775809", "99999999999999999999",
 	"NaN", "nan", "inf", "-Inf", "Infinity", "1e400", "1e-400", ".5", "5.", "--1", "1,5", "１２", "true", "null", "é", "1\n", "1 2",
+	"010", "0123", "08", "09", "-010", "-08", "00", "000123", "0x1F", "0X1f", "0x10", "0b101", "0B11", "0o17", "0O7", "0_1", "1_0", "1__0", "0x", "0x_1F",
+	"0x1p-2", "0X1P+3", "-0x1.8p1", "1_0.5", "1_0e1", "1e+3", "1E-2", "00.5", "-.5", "+1", " 1", "1 ", "\t1", "+Inf", "-inf", "Inf", "iNf", "-nan", "+.5e1", "1e5000", "1e-5000", "1.", "1.e2",
 	"0.1", "3.14159", "2.5e10", "123456789012345678", "0.000001", "1e", "e1", "-", "+", ".", "12abc", "abc12", "1-2", "test", "x",
 }
 
